@@ -145,9 +145,11 @@ def g_step(R, tier):
     for p in paths:
         sig = p.ctx.signature()
         facts = p.ctx.facts
-        pieces2 = any("pieces" in f and "== 2" in f.replace("Not(", "!") and not f.startswith("Not(") for f in facts) or \
-            any(f.startswith("2 == pieces") for f in facts)
-        malformed = any(("pieces" in f) and f.startswith("Not(") for f in facts)
+        # (decided by the solver, not by the spelling of the path facts: `len(s.split("=")) != 2`,
+        #  `s.count("=") != 1` and `partition` all constrain the same integer)
+        PZ = z3.Int("pieces(arg,'=')")
+        pieces2 = p.ctx.valid(PZ == 2)[0]
+        malformed = p.ctx.valid(PZ != 2)[0]
         named = [f for f in facts if f.startswith("(arg piece 0)==")]
         optname = named[0].split("==")[1].strip("'") if named else None
         if p.kind == "raise":
